@@ -177,13 +177,57 @@ def _run(opt, params, grads_seq):
     with ctx:
       state = state.init_fn(p)
   outs = []
+  gate = []            # per step: [(root error figure, max |statistic|)] over every statistic of the run
   with ctx:
     upd = jax.jit(opt.update)
     for gd in grads_seq:
       g = {k: jnp.asarray(np.asarray(v, np.float32)) for k, v in gd.items()}
       u, state = upd(g, state, p)
       outs.append({k: np.asarray(v, np.float64) for k, v in u.items()})
+      gate.append(_gate_figures(state))
+  _run.gate = gate
   return outs, state
+
+
+def _gate_figures(state):
+  """(error figure, max |statistic|) per Distributed Shampoo statistic; [] for other optimizers."""
+  out = []
+  stats = getattr(state, "stats", None)
+  if stats is None:
+    return out
+  if hasattr(stats, "global_stats"):
+    mats = [np.asarray(m, np.float64) for m in stats.global_stats.statistics]
+    for loc in stats.local_stats.values():
+      errs = np.asarray(loc.training_metrics.inverse_pth_root_errors, np.float64).reshape(-1)
+      i0 = int(loc.index_start)
+      for j, e in enumerate(errs):
+        if i0 + j < len(mats):
+          out.append((float(e), float(np.max(np.abs(mats[i0 + j]), initial=0.0))))
+  elif isinstance(stats, dict):
+    for loc in stats.values():
+      tm = getattr(loc, "training_metrics", None)
+      if tm is None or not hasattr(tm, "inverse_pth_root_errors"):
+        continue
+      errs = np.asarray(tm.inverse_pth_root_errors, np.float64).reshape(-1)
+      for e, m in zip(errs, loc.statistics):
+        out.append((float(e), float(np.max(np.abs(np.asarray(m, np.float64)), initial=0.0))))
+  return out
+
+
+_U32 = 2.0 ** -24
+_GATE = 0.1             # inverse_failure_threshold default
+
+
+def _eigh_gate_at_rounding_level(case, gates, upto):
+  """True iff a root was refused in one of the runs `gates` at a step <= upto and EVERY refusal is one the eigh
+  path's absolute error figure |u^T A u - diag(e)| produces from float32 rounding of the statistic alone
+  (figure <= 64 u32 max|A|): there the accept / reject decision is decided by rounding, which differs between
+  two compiled programs, so the two runs are not comparable (counted ambiguous, never a pass for a figure a
+  rounding-level perturbation cannot explain)."""
+  if not case["o"].get("eigh"):
+    return False
+  refused = [(e, m) for g in gates for step in g[:upto + 1] for e, m in step if not e <= _GATE]
+  return bool(refused) and all(np.isfinite(e) and e <= 64 * _U32 * m for e, m in refused)
 
 
 def check(case):
@@ -215,11 +259,18 @@ def check(case):
   opt_a = _ds_opt(case) if fam == "ds" else _tf_opt(case, fam == "tf")
   # A: the blocked tensor alone
   outs_a, state_a = _run(opt_a, {"x": x0}, [{"x": g} for g, _ in seq])
+  gate_a = _run.gate
+  span = max(case["scales"]) - min(case["scales"])
+  base_classes = [f"fam={fam}" + ("-sharded" if o.get("sharded") else ""), "rank3" if case.get("mid") else "rank2",
+                  "two-axes" if case["n2"] else "one-axis", "ragged" if case["ragged"] else "even",
+                  "grafted" if grafted else "ungrafted", f"span=1e{span}"]
+  amb = Result(False, base_classes + ["eigh-gate-at-rounding-level"], ambiguous=True)
   # B: its blocks as separate parameters
   pb = {f"b{k:02d}": padded(x0)[sl] for k, sl in enumerate(pblocks)}
   gb = [{f"b{k:02d}": padded(g)[sl] for k, sl in enumerate(pblocks)} for g, _ in seq]
   opt_b = _ds_opt(case) if fam == "ds" else _tf_opt(case, fam == "tf")
   outs_b, _ = _run(opt_b, pb, gb)
+  gate_b = _run.gate
   worst = 0.0
   for c in range(len(seq)):
     ua = padded(outs_a[c]["x"])
@@ -232,6 +283,8 @@ def check(case):
       require(np.all(np.isfinite(a)) and np.all(np.isfinite(b)), "finite", tag)
       if not grafted:
         r = _close(a, b, 2e-5)
+        if r > 2e-5 and fam == "ds" and _eigh_gate_at_rounding_level(case, [gate_a, gate_b], c):
+          return amb
         worst = max(worst, r / 2e-5)
         require(r <= 2e-5, "blocked-equals-separate-blocks",
                 f"{tag}: relative difference {r:.3g} between the block's slice of the blocked update and the "
@@ -245,6 +298,8 @@ def check(case):
                     f"{tag}: one of the two updates vanishes (|slice| {na:.3g}, |separate| {nb:.3g})")
           else:
             cs = float(np.dot(a.ravel(), b.ravel()) / (na * nb))
+            if cs < 1 - 1e-5 and fam == "ds" and _eigh_gate_at_rounding_level(case, [gate_a, gate_b], c):
+              return amb
             require(cs >= 1 - 1e-5, "block-direction-collinear",
                     f"{tag}: cos(slice of blocked update, separate update) = {cs:.6f}")
   # B': the last block entirely on its own (its statistics are then not padded to a larger sibling's size)
@@ -253,9 +308,12 @@ def check(case):
     sl = pblocks[k]
     opt_d = _ds_opt(case)
     outs_d, _ = _run(opt_d, {"b": padded(x0)[sl]}, [{"b": padded(g)[sl]} for g, _ in seq])
+    gate_d = _run.gate
     for c in range(len(seq)):
       a, b = padded(outs_a[c]["x"])[sl], outs_d[c]["b"]
       r = _close(a, b, 2e-5)
+      if r > 2e-5 and _eigh_gate_at_rounding_level(case, [gate_a, gate_d], c):
+        return amb
       worst = max(worst, r / 2e-5)
       require(r <= 2e-5, "blocked-equals-separate-blocks",
               f"{fam}{'-sharded' if o.get('sharded') else ''} step {c} last block {k} alone (shape {a.shape}, B={case['B']}, "
@@ -276,9 +334,12 @@ def check(case):
       outs_c, state_c = _run(opt_c, pc, gc)
     except ValueError:
       outs_c = None        # tearfree rejects some companion shapes (unit dims, > 2 large dims)
+    gate_c = _run.gate
     if outs_c is not None:
       for c in range(len(seq)):
         r = _close(outs_a[c]["x"], outs_c[c]["x"], 2e-5)
+        if r > 2e-5 and fam == "ds" and _eigh_gate_at_rounding_level(case, [gate_a, gate_c], c):
+          return amb
         worst = max(worst, r / 2e-5)
         require(r <= 2e-5, "parameter-independent-of-companions",
                 f"{fam} step {c}: update of the parameter changes by {r:.3g} (relative) when companions "
@@ -294,7 +355,5 @@ def check(case):
                     f"ds: a state leaf of the parameter differs by {_close(a, b, 1):.3g} with companions present")
       if fam == "ds":
         changed_max = max([max(cc["shape"]) for cc in case["companions"]]) > case["B"]
-  span = max(case["scales"]) - min(case["scales"])
-  classes = [f"fam={fam}" + ("-sharded" if o.get("sharded") else ""), "rank3" if case.get("mid") else "rank2", "two-axes" if case["n2"] else "one-axis", "ragged" if case["ragged"] else "even",
-             "grafted" if grafted else "ungrafted", f"span=1e{span}"]
+  classes = base_classes
   return Result(span >= 3 or changed_max, classes, metrics={"tolerance_ratio": worst}, sub=len(seq))
